@@ -35,7 +35,7 @@ fn exec_case(f: &[&str]) -> Vec<String> {
         "sstcp" => t1_sstcp::exec(f),
         "stress" => t1_stress::exec(f),
         "ssudp" => t1_ssudp::exec(f),
-        "vmbody" | "vmsrv" | "vmcli" | "vmauthlen" => t1_vmess::exec(f),
+        "vmbody" | "vmsrv" | "vmcli" | "vmrt" | "vmauthlen" => t1_vmess::exec(f),
         "trojsrv" | "trojcu" | "trojenc" | "trojsenc" | "s5ir" | "s5cr" | "s5irs" | "s5crs" | "s5udp" | "s5udpo" | "s5udpenc" | "http" => t1_misc::exec(f),
         "hshake" => t1_hshake::exec(f),
         "s5enc" | "s5dec" | "s5try" | "vmw" | "vmr" => t1_addr::exec(f),
